@@ -1,6 +1,6 @@
 \* thorough: every header position 0..1019 x 4 file kinds
 CONSTANTS
-  Headers = 0..1019
+  Headers <- MC_AllHeaders
   Tails = {"plain", "%", "%P", "%PD", "%PDF"}
   Kinds = {"classic", "xrefstm", "prev2", "objstm"}
   Consumers = {"startxref", "prev", "entry", "streamdata", "scan"}
